@@ -46,17 +46,40 @@ def _tol(cfg, rows, G):
     return fractions.Fraction(mx) / 2 ** 21 + fractions.Fraction(1, 10 ** int(G.output_digits))
 
 
-def observe(cfg, rows, pre_on=False):
-    """Run the real write() and read the bytes back."""
+def observe(cfg, rows, pre_on=False, hist=None):
+    """Run the real write() and read the bytes back.
+
+    hist = 'same-array': the very same float32 matrix object was compiled once before (by another compiler of the same
+    configuration); hist = 'reassigned': the compiler was used before under other settings (another file written and closed), then
+    its index, mirror and origin settings were reassigned to those of cfg.  Either way the file judged is the last one."""
     from femto.pgmcompiler import PGMCompiler
     with gcommon.Scratch() as d, core.quiet():
-        G = PGMCompiler(**cfg)
+        arr = gcommon.to_np(rows)
+        if hist == 'same-array':
+            G0 = PGMCompiler(**cfg)
+            try:
+                G0.write(arr)
+            except (ValueError, IndexError, TypeError):
+                pass
+            G0.close('first.pgm')
+        if hist == 'reassigned':
+            other = dict(cfg)
+            other.update(n_glass=cfg['n_glass'] * 1.25, n_environment=cfg['n_environment'] * 0.8, flip_x=not cfg.get('flip_x', False),
+                         flip_y=not cfg.get('flip_y', False), shift_origin=(cfg['shift_origin'][0] + 0.5, cfg['shift_origin'][1] - 0.25))
+            G = PGMCompiler(**other)
+            G.write(gcommon.to_np([[0.0, 0.0, 0.0, 5.0, 0.0], [1.0, 0.5, 0.25, 5.0, 1.0], [2.0, 0.5, 0.25, 5.0, 0.0]]))
+            G.close('first.pgm')
+            G.n_glass, G.n_environment = cfg['n_glass'], cfg['n_environment']
+            G.flip_x, G.flip_y = cfg.get('flip_x', False), cfg.get('flip_y', False)
+            G.shift_origin = cfg['shift_origin']
+        else:
+            G = PGMCompiler(**cfg)
         mcfg = gcommon.model_cfg(G)
         if pre_on:
             G.shutter('ON')
         raised = None
         try:
-            G.write(gcommon.to_np(rows))
+            G.write(arr)
         except (ValueError, IndexError, TypeError) as e:
             raised = type(e).__name__
         n_instr = len(G._instructions)
@@ -66,9 +89,9 @@ def observe(cfg, rows, pre_on=False):
                 'shutter_on': bool(G._shutter_on), 'dwell': q(float(G.dwell_time))}
 
 
-def check_case(ctx, cfg, rows, exact, src, pre_on=False, escal=False):
-    obs = observe(cfg, rows, pre_on)
-    case = {'cfg': cfg, 'rows': rows, 'exact': exact, 'src': src, 'pre_on': pre_on}
+def check_case(ctx, cfg, rows, exact, src, pre_on=False, escal=False, hist=None):
+    obs = observe(cfg, rows, pre_on, hist)
+    case = {'cfg': cfg, 'rows': rows, 'exact': exact, 'src': src, 'pre_on': pre_on, 'hist': hist}
     mj = gcommon.matrix_json(rows)
     tol = fractions.Fraction(0) if exact else obs['tol']
     reqs = [{'op': 'c01.check', 'cfg': obs['mcfg'], 'm': mj, 'text': obs['text'], 'tol': q(tol), 'shutter_on': False},
@@ -114,7 +137,7 @@ def judge(ctx, case, obs, res, tol):
     d = gcommon.close_events(a, b, tol)
     if d:
         ctx.fail('corr', 'write', case, f'controller trace of the implementation differs from the model: {d}')
-    elif obs['dwell'] != model['reported_dwell'] and case['exact']:
+    elif obs['dwell'] != model['reported_dwell'] and case['exact'] and not case.get('hist'):
         ctx.fail('corr', 'write', case, f'reported dwell differs: impl {obs["dwell"]} model {model["reported_dwell"]}')
 
 
@@ -140,7 +163,15 @@ def run(ctx):
         ctx.count('write.source', src)
         ctx.count('write.regime', 'exact' if exact_case else 'rounded')
         ctx.count('write.toggle_with_move', str(any(a[4] != b[4] and a[:3] != b[:3] for a, b in zip(rows, rows[1:]))))
-        batch.append(check_case(ctx, cfg, rows, exact_case, src, pre_on))
+        hist = rng.choice([None, None, None, None, None, 'same-array', 'reassigned'])
+        if hist == 'reassigned' and pre_on:
+            hist = None
+        if hist == 'same-array' and rng.random() < 0.5:
+            cfg['shift_origin'] = (0.0, 0.0)      # (with a zero shift nothing forces a copy of the coordinates before they are mirrored)
+            if not (cfg.get('flip_x') or cfg.get('flip_y')):
+                cfg[rng.choice(['flip_x', 'flip_y'])] = True
+        ctx.count('write.history', str(hist))
+        batch.append(check_case(ctx, cfg, rows, exact_case and hist != 'reassigned', src, pre_on, hist=hist))
     if ctx.tier == 'thorough' or ctx.escalated:
         cfg = {'filename': 'prog.pgm', 'shift_origin': (0.5, -0.25), 'flip_x': True, 'n_glass': 2.0, 'n_environment': 1.0,
                'short_pause': 0.25, 'long_pause': 0.5}
@@ -173,5 +204,5 @@ def replay(ctx, payload):
     c = payload['case']
     cfg = dict(c['cfg'])
     cfg['shift_origin'] = tuple(cfg['shift_origin'])
-    case, obs, reqs, tol = check_case(ctx, cfg, c['rows'], c['exact'], c.get('src', 'replay'), c.get('pre_on', False))
+    case, obs, reqs, tol = check_case(ctx, cfg, c['rows'], c['exact'], c.get('src', 'replay'), c.get('pre_on', False), hist=c.get('hist'))
     judge(ctx, case, obs, ctx.driver.ask(reqs), tol)
